@@ -25,6 +25,10 @@ class RawView:
         return self.con.execute('SELECT rowid, key, raw, store_time, expire_time, access_time, access_count, tag, size,'
                                 ' mode, filename FROM Cache ORDER BY rowid').fetchall()
 
+    def meta(self):
+        """rowid -> (store_time, access_time, access_count): the columns the eviction policies order by."""
+        return {r[0]: r[1:] for r in self.con.execute('SELECT rowid, store_time, access_time, access_count FROM Cache').fetchall()}
+
     def sizes(self):
         return dict(self.con.execute('SELECT rowid, size FROM Cache').fetchall())
 
